@@ -52,11 +52,25 @@ GoodFor(n, o) ==
   ({o} \cup (IF n \in Names
              THEN {ns[Token(n)].owner, ns[n].owner, IF Par[n] # Nil THEN ns[Par[n]].owner ELSE "CMT"}
              ELSE {})) \ {Nil, KC}
+\* signer sets are drawn from the role set of the statement: the authorised ones, and the relatives that
+\* must not suffice (admin without owner, owner/admin of the 2nd-level ancestor or of the parent's parent
+\* instead of the directly enclosing name, new owner/admin alone), alone and in pairs
+Second(n) == IF n \in NT THEN Sufs(n)[Level(n) - 1] ELSE n
+RoleSet(n, o) ==
+  IF n \notin Names THEN {o}
+  ELSE {o, ns[n].owner, ns[n].admin, ns[Token(n)].owner, ns[Token(n)].admin, ns[Second(n)].owner, ns[Second(n)].admin,
+        IF Par[n] # Nil THEN ns[Par[n]].owner ELSE "CMT", IF Par[n] # Nil THEN ns[Par[n]].admin ELSE "CMT",
+        IF Par[n] # Nil /\ Par[Par[n]] # Nil THEN ns[Par[Par[n]]].owner ELSE "CMT", "X", "CMT"}
+Clean(S) == S \ {Nil, KC}
 SimSigners(n, o) ==
-  LET r == RandomElement(1..8) IN
+  LET r == RandomElement(1..12) IN
   IF r <= 4 THEN {GoodFor(n, o)}
-  ELSE IF r = 5 THEN {({ns[n].admin, o} \ {Nil, KC})}
+  ELSE IF r = 5 THEN {Clean({IF n \in Names THEN ns[n].admin ELSE Nil, o})}
   ELSE IF r = 6 THEN {{"CMT"}}
+  ELSE IF r = 7 THEN {Clean({RandomElement(RoleSet(n, o))})}
+  ELSE IF r <= 9 THEN {Clean({RandomElement(RoleSet(n, o)), RandomElement(RoleSet(n, o))})}
+  ELSE IF r = 10 THEN {Clean({RandomElement(RoleSet(n, o)), o})}
+  ELSE IF r = 11 /\ n \in Names THEN {Clean({ns[Token(n)].admin})}
   ELSE One(SignerSets)
 SimVia(n, o) == IF KC \notin Owners THEN {FALSE}
                 ELSE IF o = KC \/ (n \in Names /\ KC \in {ns[Token(n)].owner, ns[n].owner}) THEN One({TRUE, TRUE, FALSE})
